@@ -27,6 +27,7 @@
 #include <vector>
 
 #include "iora/core/logger.hpp"
+#include "iora/core/verif_hooks.hpp"
 #include "iora/core/thread_pool.hpp"
 #include "iora/network/transport_impl.hpp"
 #include "iora/parsers/http_message.hpp"
@@ -862,6 +863,12 @@ protected:
         }
       }
 
+#ifdef IORA_VERIF
+      if (::iora::verif::httpRequestFramed)
+      {
+        ::iora::verif::httpRequestFramed(sid, requestData);
+      }
+#endif
       // Process request in thread pool to avoid blocking transport
       // Use tryEnqueue for backpressure - reject requests if queue is full
       if (!_threadPool.tryEnqueue([this, sid, requestData]()
